@@ -27,6 +27,10 @@ CONFIGS = [
     # ONE comparison object shared by several waiters, some of which leave early (until) while it is still false
     ('shared', dict(B, NRoots=3, MaxActs=3, RootOps=2, NFlags=1, NRes=1, MaxPools=2, ResInit=0, Horizon=2, MaxScopes=1,
                     Menu={'sleep', 'await_lvl', 'lvl_shared', 'rchange', 'until_d', 'leave'}), INV),
+    # the setter is interrupted inside `set` / `increase` (an until-block whose flag is already set): the level has
+    # changed, so the waiters of comparisons that hold now must have been woken all the same
+    ('set_cut', dict(B, NRoots=2, MaxActs=2, RootOps=3, NFlags=1, NRes=1, MaxPools=2, ResInit=0, Horizon=1, MaxScopes=1,
+                     Menu={'await_lvl', 'rchange', 'until_f', 'fset', 'leave'}), INV),
     # supplies with TWO resource types: >=, >, <=, < hold iff they hold for every type, == iff all are equal, != is its
     # negation; set() replaces only the types it names; types left out of a comparison count as zero
     ('levels2', dict(B, NRoots=2, MaxActs=2, RootOps=3, NFlags=1, NRes=1, MaxPools=2, ResInit=1, NT=2, ResInitB=0, MaxLevel=2,
